@@ -67,6 +67,6 @@ PROP = dict(
 MANIFEST = dict(
     level_text="Finite-matrix proof over tables REGENERATED from the Go source on every run: every handler in the breaker scope has the breaker check before any write, every vault handler that can reach MintCoins has the ESM check before any write, vault withdraw has the cool-off check before any write, all seven sweep / auction-start functions are gated by the breaker and write nothing before reading it, the liquidate messages of both generations refuse under the breaker (generation 1: check before any write in the handler's row; generation 2: dispatch to the gated per-position sweep functions), every price call site reachable from a handler (and every link to it; a raw GetTwa read that discards the found flag counts as a site that ignores the error) propagates the error - each lifted by a generic lemma to 'for every store the handler returns the error on the untouched store'. Cross-checked by running every handler x breaker x ESM phase x every inactive-price subset, and every amount field x every boundary amount of the state (the amounts that select early-return branches) x controls, and the sweeps on the real code, and the same matrix over the liquidation / auction / shutdown / reward messages on a state with unhealthy positions and running auctions of both generations; exact error class compared with the model's prediction; an operation must fail when a feed it reads and depends on is inactive, and an inactive feed never turns a refusal into a success.",
     design_ref="DESIGN.md section 4 C14",
-    level_note="Trusted: Coq kernel, translator (fails closed on unrecognised shapes), extraction, OCaml runner, Go harness. Price clause is _partial: two handlers excluded (price error ignored on their paths, read in the code, not reproduced). No axioms.",
+    level_note="Trusted: Coq kernel, translator (fails closed on unrecognised shapes), extraction, OCaml runner, Go harness. Price clause is _partial: two handlers are excluded from the theorem (price errors discarded on their paths); both are in the dynamic matrix and the discarded errors that changed an outcome were reproduced and repaired (C14-F2). The liquidate-message breaker theorem is _partial for generation 2 (opaque row + reviewed dispatch list, cross-checked dynamically). No axioms.",
     technique="Coq proof by computation over regenerated tables + generic guard-list lemmas + control matrix run against the real msg servers and block hooks",
 )
